@@ -1,7 +1,7 @@
 (* C03 (serix binary part) - the wire layout is the documented one; validated decoding accepts only canonical bytes.
    Statements only. *)
 From Coq Require Import List NArith ZArith Bool.
-From Verif.C01_Serix Require Import Model Layout.
+From Verif.C01_Serix Require Import Model Layout Bound RoundTrip Canonical.
 Import ListNotations.
 Open Scope N_scope.
 
@@ -45,6 +45,56 @@ Theorem C03_layout_sequence : forall l r data, N.of_nat (length data) <= lpt_max
   Ok (le_enc (lpt_size l) (N.of_nat (length data)) ++ concat (if ar_autosort r && ar_lex r then sortb data else data)).
 Proof. exact layout_seq_novalidation. Qed.
 
+(* ---- reverse direction: validated decoding accepts only canonical bytes ---- *)
+
+(* For ALL schemas of the fragment that do not contain time.Time (wfc: also no zero-size sequence elements, pointer
+   targets the encoder supports, interface alternatives registered under their own code), ALL byte strings:
+   if the validating decoder accepts b and consumes n bytes, re-encoding the value with validation yields b[:n]. *)
+Theorem C03_canonical_partial : forall s, wfc s -> forall tot d b v n, wfb b ->
+  decode true tot s b = Ok (v, n) -> encode true d s v = Ok (firstn n b).
+Proof. exact canonical. Qed.
+
+(* time.Time itself, under the guard of the property (stamp inside the int64 nanosecond range) *)
+Theorem C03_canonical_time : forall tot d b v n, wfb b -> decode true tot STime b = Ok (v, n) ->
+  (Z.of_N (le_dec (firstn 8 b)) <= MaxInt64)%Z -> encode true d STime v = Ok (firstn n b).
+Proof. exact canonical_time. Qed.
+
+(* full statement (time stamps anywhere inside the schema, guarded by no_time_saturation): not proved as one theorem *)
+Definition C03_canonical_full_statement : Prop :=
+  forall (no_time_saturation : schema -> bytes -> Prop) s tot d b v n, wfb b -> no_time_saturation s b ->
+    decode true tot s b = Ok (v, n) -> encode true d s v = Ok (firstn n b).
+
+(* no malleability *)
+Theorem C03_injective : forall s, wfc s -> forall tot b1 b2 v n1 n2, wfb b1 -> wfb b2 ->
+  decode true tot s b1 = Ok (v, n1) -> decode true tot s b2 = Ok (v, n2) -> firstn n1 b1 = firstn n2 b2.
+Proof. exact canonical_injective. Qed.
+
+Theorem C03_refuted_time_saturation :
+  Decode true STime [0; 0; 0; 0; 0; 0; 0; 128] = Ok (VTime (-9223372036854775808), 8%nat) /\
+  Encode true STime (VTime (-9223372036854775808)) = Ok [0; 0; 0; 0; 0; 0; 0; 0].
+Proof. exact refuted_time_saturation. Qed.
+
+Example C03_canonical_nonvacuous :
+  wfc exc_schema /\
+  exists b v, wfb b /\ Decode true exc_schema b = Ok (v, length b) /\ Encode true exc_schema v = Ok b /\ (20 < length b)%nat.
+Proof. exact canonical_nonvacuous. Qed.
+
+Example C03_noncanonical_rejected :
+  let m := SMap L8 (mkAR 0 0 false false false false [] false) (SInt false W1) SBool in
+  let st := SSlice L8 (mkAR 0 0 true true false false [] true) (SInt false W1) in
+  let op := SStruct None (FCons FOpt (SPtr (SStruct None (FCons FPlain (SInt false W1) FNil))) FNil) in
+  Decode true m [2; 1; 0; 2; 1] = Ok (VMap [(VInt 1, VBool false); (VInt 2, VBool true)], 5%nat) /\
+  Decode true m [2; 2; 1; 1; 0] = Err EOrder /\
+  Decode true m [2; 1; 0; 1; 1] = Err EDupKey /\
+  Decode true st [2; 5; 5] = Err EDup /\
+  Decode true st [2; 6; 5] = Err EOrder /\
+  Decode true op [2; 0; 0; 0; 9; 0] = Err EOther /\
+  Decode true SBool [2] = Err EBool.
+Proof. exact noncanonical_rejected. Qed.
+
 Print Assumptions C03_layout_int.
 Print Assumptions C03_layout_time.
 Print Assumptions C03_layout_sequence.
+Print Assumptions C03_canonical_partial.
+Print Assumptions C03_canonical_time.
+Print Assumptions C03_injective.
